@@ -140,6 +140,55 @@ def fw_random_cb(rng, nmax, labels=LABELS):
     return [0, [[rng.randint(0, 3), rng.choice(labels), fields[i]] for i in range(n)]]
 
 
+def fw_random_forest(rng, nmax, cb=True, labels=LABELS):
+    """aimed at the hypotheses of roundtrip_framework_cycles / _callbacks WITH inlined records (the driver
+    decides): a tree of non-callback edges below a plain main in which some nodes are *inlined* (exactly one
+    `own` edge, never referred to by name, plain class); levels as in fw_random_levels: early edges (ref or
+    own) go strictly down, late edges stay on the level; inlined nodes refer by name to lower named nodes
+    and may inline further nodes; callback edges (named targets only) anywhere when `cb`"""
+    n = rng.randint(2, nmax)
+    named = [True] + [rng.random() < 0.55 for _ in range(n - 1)]
+    gen = [False] * n
+    lev = [4] + [0] * (n - 1)
+    fields = [[] for _ in range(n)]
+    for i in range(1, n):
+        j = rng.randrange(i)
+        kind = "ref" if named[i] else "own"
+        if named[j] and j != 0 and rng.random() < 0.35:
+            lev[i] = lev[j]
+            gen[j] = True
+            fields[j].append(["l", kind, i])
+        elif lev[j] >= 1:
+            lev[i] = lev[j] - 1
+            fields[j].append(["e", kind, i])
+        elif named[j] and j != 0:
+            lev[i] = lev[j]
+            gen[j] = True
+            fields[j].append(["l", kind, i])
+        else:
+            lev[i] = 3
+            fields[0].append(["e", kind, i])
+    for i in range(n):
+        for _ in range(rng.choice([0, 1, 1, 2])):
+            r = rng.random()
+            if r < 0.15:
+                fields[i].append(["e", "lit", rng.randint(0, 9)])
+            elif r < 0.3:
+                fields[i].append(["e", "str", rng.choice(["a", "st__a", ""])])
+            elif r < 0.55 or not named[i]:
+                lower = [j for j in range(n) if named[j] and lev[j] < lev[i]]
+                if lower:
+                    fields[i].append(["e", "ref", rng.choice(lower)])
+            elif gen[i]:
+                same = [j for j in range(n) if named[j] and lev[j] <= lev[i] and j != 0]
+                if same:
+                    fields[i].append(["l", "ref", rng.choice(same)])
+            elif cb:
+                fields[i].append(["c", "ref", rng.choice([j for j in range(n) if named[j]])])
+        rng.shuffle(fields[i])
+    return [0, [[rng.randint(0, 3), rng.choice(labels), fields[i]] for i in range(n)]]
+
+
 class Fw(Family):
     name = "fw"
     exhaustive = False
@@ -163,8 +212,12 @@ class Fw(Family):
                     yield [0, [[1, "a", f0], [2, "a", f1]]]
         n = 12000 if tier == "quick" else 200000
         for i in range(n):
-            m = i % 6
-            if m == 5:
+            m = i % 8
+            if m == 7:     # inlined forests below generator loaders and callbacks
+                yield fw_random_forest(rng, 7, cb=True)
+            elif m == 6:   # inlined forests, generator loaders, no callbacks
+                yield fw_random_forest(rng, 7, cb=False)
+            elif m == 5:
                 yield fw_random_cb(rng, 7)
             elif m == 4:
                 yield fw_random_levels(rng, 7)
@@ -1123,7 +1176,7 @@ def pre_build():
 PROP = Property(
     id="C02",
     title="A saved session restores to an observationally equivalent session",
-    theorems=["C02.names_injective", "C02.disambiguate_total_fresh", "C02.string_prefix_safe", "C02.old_label_reads_as_literal", "C02.roundtrip_framework_partial", "C02.roundtrip_framework_cycles_partial", "C02.roundtrip_framework_callbacks_partial", "C02.declared_ids_denote_declared_names", "C02.dispatch_matches_observed", "C02.table_offenders_nil", "C02.no_silent_fallthrough"],
+    theorems=["C02.names_injective", "C02.disambiguate_total_fresh", "C02.string_prefix_safe", "C02.old_label_reads_as_literal", "C02.roundtrip_framework", "C02.roundtrip_framework_cycles", "C02.roundtrip_framework_callbacks", "C02.declared_ids_denote_declared_names", "C02.dispatch_matches_observed", "C02.table_offenders_nil", "C02.no_silent_fallthrough"],
     families=[Fw(), Cls(), Sess(), SessFiles()],
     pre_build=pre_build,
     trusted_base=["JSON, base64, np.save/np.load, FITS/HDF5/CSV readers (astropy, h5py, pandas) are trusted codecs",
